@@ -16,6 +16,20 @@ var extremeInts = []int64{math.MinInt64, math.MinInt64 + 1, -(1 << 32) - 1, -(1 
 	(1 << 32) - 1, 1 << 32, (1 << 32) + 1, (1 << 32) + 12, (1 << 32) + 24, (1 << 32) + 2, math.MaxInt64 - 1, math.MaxInt64,
 	(1 << 31) + 12, -(1 << 32) + 12, -(1 << 32) + 24, (1 << 33) + 15, math.MaxInt64 - 6, math.MinInt64 + 20}
 
+// wrapIntegers: v + k*2^p for the powers at which narrowing conversions and products such as n*4, n*11 or n*4/3
+// wrap around, around the accepted sizes and the small language numbers
+func wrapIntegers() []int64 {
+	var out []int64
+	for _, p := range []uint{8, 16, 29, 30, 31, 32, 33, 48, 60, 61, 62, 63} {
+		for _, v := range []int64{0, 1, 2, 3, 9, 12, 15, 18, 21, 24, 27, -1, -12} {
+			out = append(out, int64(uint64(1)<<p)+v, -int64(uint64(1)<<p)+v, int64(uint64(3)<<(p-1))+v)
+		}
+	}
+	return out
+}
+
+func init() { extremeInts = append(extremeInts, wrapIntegers()...) }
+
 // C16 / C14: Language.String over a window and the extremes
 func runStrings(lo, hi int64) {
 	for n := lo; n <= hi; n++ {
@@ -132,6 +146,29 @@ func runListCover(tier string, seed int64) {
 	if tier != "quick" {
 		covSizes = []int{16, 24, 32}
 	}
+	for pass := 0; pass < 2; pass++ {
+		runListCoverPass(tier, seed+int64(pass)*7919, covSizes)
+		if pass == 0 {
+			// between the passes: validations that fail in every way, in every language (the lists observable
+			// through the API must still be the canonical ones afterwards)
+			r := newRng(seed, "cover/failures")
+			for lang := 0; lang < 10; lang++ {
+				maybeCut()
+				idx := indicesOf(r.bytes(16))
+				ws := strings.Split(sentence(idx, lang, " "), " ")
+				ws[r.intn(12)] = "qqqq"
+				recCheck(strings.Join(ws, " "), int64(lang), Event{"cls": "unknown"})
+				recCheck(strings.Repeat("qqqq ", 11)+"qqqq", int64(lang), Event{"cls": "unknown"})
+				idx[11] ^= 1
+				recCheck(sentence(idx, lang, " "), int64(lang), Event{"cls": "badsum"})
+				recCheck(sentence(idx[:10], lang, " "), int64(lang), Event{"cls": "short"})
+				recCheck(sentence(idx, (lang+1)%10, " "), int64(lang), Event{"cls": "otherlist"})
+			}
+		}
+	}
+}
+
+func runListCoverPass(tier string, seed int64, covSizes []int) {
 	for lang := 0; lang < 10; lang++ {
 		for _, size := range covSizes {
 			r := newRng(seed, "cover/"+string(rune('a'+size))+string(rune('a'+lang)))
@@ -154,6 +191,45 @@ func runListCover(tier string, seed int64) {
 }
 
 // ---- C14 ----------------------------------------------------------------
+
+var mixSeps = []string{" ", " ", " ", "\n", "\t", "\r\n", "\v", "\f", "\u0085", "\u1680", "\u2028", "\u2029", "\u3000", "\u00a0", "  ", " \n"}
+
+// runWhitespaceMix: list words joined by a mix of separators, so that the number of U+0020, the number of
+// whitespace-separated tokens and the number of fields disagree in every way (C14, C03)
+func runWhitespaceMix(seed int64, count int, langs []int64) {
+	r := newRng(seed, "wsmix")
+	for k := 0; k < count; k++ {
+		maybeCut()
+		lang := langs[r.intn(len(langs))]
+		l := listLang(lang)
+		n := 10 + r.intn(17)
+		idx := indicesOf(r.bytes(32))
+		for len(idx) < n {
+			idx = append(idx, 1+r.intn(2047))
+		}
+		idx = idx[:n]
+		var sb strings.Builder
+		odd := 1 + r.intn(3) // how many junctions are not a plain space
+		for i, x := range idx {
+			if i > 0 {
+				if r.intn(n) < odd {
+					sb.WriteString(mixSeps[3+r.intn(len(mixSeps)-3)])
+				} else {
+					sb.WriteString(" ")
+				}
+			}
+			sb.WriteString(goldenWords[l][x])
+		}
+		s := sb.String()
+		switch r.intn(6) {
+		case 0:
+			s = s + mixSeps[r.intn(len(mixSeps))]
+		case 1:
+			s = mixSeps[r.intn(len(mixSeps))] + s
+		}
+		recCheck(s, lang, Event{"cls": "wsmix"})
+	}
+}
 
 func invalidUTF8Shapes() []string {
 	return []string{"\x80", "\xbf", "\xc3", "\xe3\x81", "\xf0\x9f\x98", "\xc0\xaf", "\xe0\x80\xaf", "\xed\xa0\x80", "\xed\xbf\xbf",
@@ -182,6 +258,7 @@ func runRobust(tier string, seed int64, phase string) {
 			}
 		}
 	}
+	runWhitespaceMix(seed, map[string]int{"quick": 600, "thorough": 10000}[tier], langs)
 	// fuzzed bytes
 	nf := map[string]int{"quick": 300, "thorough": 5000}[tier]
 	for i := 0; i < nf; i++ {
